@@ -632,7 +632,9 @@ func (eng *Engine) execUnOp(t *ssa.UnOp, env *Env) []*Env {
 	case token.MUL:
 		// a local array literal read as a whole: the value stands for the literal's element cell
 		if al, isAl := t.X.(*ssa.Alloc); isAl {
-			if _, isArr := al.Type().Underlying().(*types.Pointer).Elem().Underlying().(*types.Array); isArr && eng.arrayFullyInit(al) {
+			// (whether the literal is filled by whole-element stores or field by field: in the latter case the
+			// element cell starts from the zero value and the stores join into it)
+			if _, isArr := al.Type().Underlying().(*types.Pointer).Elem().Underlying().(*types.Array); isArr {
 				if x := eng.val(env, al); x.K == KPtr && x.Obj != 0 {
 					env.vals[t] = AV{K: KSlice, Nil: nonNil, Obj: x.Obj, Path: x.Path + "[]"}
 					return []*Env{env}
@@ -653,7 +655,8 @@ func (eng *Engine) execUnOp(t *ssa.UnOp, env *Env) []*Env {
 			e := le.env
 			v := eng.readAt(e, le.obj, le.path, t.Type())
 			oi := e.objs[le.obj]
-			if v.K == KBot && oi != nil && oi.ElemCell {
+			_, wholeArray := t.Type().Underlying().(*types.Array)
+			if v.K == KBot && oi != nil && oi.ElemCell && !wholeArray {
 				// an element of a collection nothing was ever stored into: the collection is empty on this
 				// path, the read cannot happen (its bounds obligation is engine-2's)
 				continue
